@@ -18,6 +18,9 @@ pub struct TextSpec {
     pub ign_permille: u32,
     pub ign_seed: u64,
     pub transitive: bool,
+    /// hp.obo starts directly with the first [Term] stanza (no header block, hence no data-version)
+    #[serde(default)]
+    pub no_obo_header: bool,
 }
 
 impl TextSpec {
@@ -30,10 +33,11 @@ impl TextSpec {
             ign_permille: if r.chance(1, 3) { 0 } else { *r.pick(&[50u32, 200, 500]) },
             ign_seed: r.next_u64(),
             transitive,
+            no_obo_header: false,
         }
     }
     pub fn canonical(transitive: bool) -> TextSpec {
-        TextSpec { stanzas: Order::canonical(), gene_rows: Order::canonical(), disease_rows: Order::canonical(), dup: Dup::none(), ign_permille: 0, ign_seed: 0, transitive }
+        TextSpec { stanzas: Order::canonical(), gene_rows: Order::canonical(), disease_rows: Order::canonical(), dup: Dup::none(), ign_permille: 0, ign_seed: 0, transitive, no_obo_header: false }
     }
 }
 
@@ -59,13 +63,19 @@ pub fn render(f: &FactSet, spec: &TextSpec) -> TextFiles {
 
     // ---------------------------------------------------------------- hp.obo
     let mut obo = String::new();
-    obo.push_str("format-version: 1.2\n");
-    if ign(1, 1) {
+    if !spec.no_obo_header {
+        obo.push_str("format-version: 1.2\n");
+    }
+    if !spec.no_obo_header && ign(1, 1) {
         obo.push_str("subsetdef: hposlim_core \"Core clinical terminology\"\n");
         *out.injected.entry("obo-header-line").or_default() += 1;
     }
-    obo.push_str(&format!("data-version: hp/releases/{:04}-{:02}-{:02}\n", f.version.0, f.version.1, f.version.2));
-    if ign(1, 2) {
+    if !spec.no_obo_header {
+        obo.push_str(&format!("data-version: hp/releases/{:04}-{:02}-{:02}\n", f.version.0, f.version.1, f.version.2));
+    } else {
+        *out.injected.entry("obo-without-header-block").or_default() += 1;
+    }
+    if !spec.no_obo_header && ign(1, 2) {
         obo.push_str("saved-by: Peter Robinson, Sebastian Koehler\ndefault-namespace: human_phenotype\nontology: hp.obo\n");
         *out.injected.entry("obo-header-line").or_default() += 1;
     }
@@ -93,8 +103,15 @@ pub fn render(f: &FactSet, spec: &TextSpec) -> TextFiles {
         // is_a lines in a seeded order of their own
         let mut ps: Vec<u32> = pm[&t.id].iter().copied().collect();
         ps.sort_by_key(|p| mix2(spec.stanzas.seed ^ 0x15A, u64::from(*p) ^ (k << 32)));
-        for p in ps {
+        for (pi, p) in ps.into_iter().enumerate() {
             let label = names.get(&p).copied().unwrap_or("");
+            // OBO does not fix the order of tags: another tag may sit between two is_a lines
+            if ign(21, k ^ (u64::from(p) << 7)) {
+                obo.push_str(if pi % 2 == 0 { "xref: SNOMEDCT_US:123456\n" } else { "comment: a remark between two is_a tags\n" });
+                if pi > 0 {
+                    *out.injected.entry("is_a-lines-separated-by-another-tag").or_default() += 1;
+                }
+            }
             if ign(5, k ^ u64::from(p)) {
                 obo.push_str(&format!("is_a: {} {{source=\"x\"}} ! {}\n", hp(p), label));
                 *out.injected.entry("is_a-with-modifier").or_default() += 1;
@@ -127,6 +144,10 @@ pub fn render(f: &FactSet, spec: &TextSpec) -> TextFiles {
     }
     if ign(10, 10) {
         obo.push('\n');
+    }
+    if spec.no_obo_header {
+        // the file starts with the first stanza line
+        obo = obo.trim_start_matches('\n').to_string();
     }
     out.obo = obo;
 
